@@ -27,7 +27,7 @@ Init == l = 1 /\ verdict = "ok"
 Next == /\ l <= Len(Tr)
         /\ l' = l + 1
         /\ verdict' = Judge(Tr[l])
-        /\ (verdict' = "ok" \/ PrintT(<<"REJECT", l, verdict'>>))
+        /\ (IF verdict' = "ok" THEN TRUE ELSE PrintT(<<"REJECT", l, verdict'>>))
 Spec == Init /\ [][Next]_<<l, verdict>>
 AllConsumed == TLCGet("stats").diameter = Len(Tr) + 1
 =============================================================================
